@@ -267,6 +267,18 @@ fn text_payloads<V: Variant>(bytes: &[u8]) -> Vec<String> {
         s[pos] = b'g';
         v.push(String::from_utf8(s).unwrap());
     }
+    // valid UTF-8 with multi-byte characters near the prefix, of exactly the prefixed and the plain byte length
+    for pre in ["T\u{e4}", "\u{20ac}", "\u{e4}1", "T\u{20ac}", "\u{1d11e}", "T1\u{e9}", "\u{e9}T1"] {
+        for total in [V::STRLEN, V::STRLEN - 2] {
+            let mut s = String::from(pre);
+            while s.len() < total {
+                s.push('0');
+            }
+            if s.len() == total {
+                v.push(s);
+            }
+        }
+    }
     // strict-parser relevant: checksum 49 (48-bucket) and length code 170
     let mut b = bytes.to_vec();
     b[V::CK] = 170;
